@@ -57,7 +57,8 @@ let () = read_lines (fun l ->
                      (match from_string s with None -> "N" | Some x -> tok_of_addr x))
   | [id; "E"; a; b] ->
     let a = addr_of_tok a and b = addr_of_tok b in
-    print_endline (Printf.sprintf "%s %s %s %s" id (b2 (addr_equal a b)) (b2 (addr_equal_no_port a b)) (b2 (to_string a = to_string b)))
+    print_endline (Printf.sprintf "%s %s %s %s %s %s" id (b2 (addr_equal a b)) (b2 (addr_equal_no_port a b)) (b2 (to_string a = to_string b))
+                     (b2 (addr_equal b a)) (b2 (addr_equal_no_port b a)))
   | [id; "G"; c] ->
     let line = gen_candidate (cand_of_tok c) in
     print_endline (id ^ " " ^ hex_of_str line ^ " " ^ presult_str (parse_candidate_full line))
